@@ -103,6 +103,10 @@ pub fn plan_for(property: &str) -> Option<(&'static str, Vec<PlanItem>)> {
                 PlanItem { family: "mtu_peer_sizes", run: c14_tx, quick: 2000, thorough: 60000, determinism_check: false },
             ],
         ),
+        "C17" => (
+            "C17",
+            vec![PlanItem { family: "handshake", run: c17_hs, quick: 8000, thorough: 250000, determinism_check: true }],
+        ),
         "C16" => (
             "C16",
             vec![PlanItem { family: "direct_rtte", run: crate::fam::direct::direct_rtte, quick: 4000, thorough: 40000, determinism_check: false }],
@@ -586,6 +590,39 @@ fn c14_tx(ctx: &CaseCtx) -> CaseReport {
     }
     rep.counters.add("datagrams", view.pkts.len() as u64);
     rep.nontrivial = rep.counters.get("c14_datagram_sizes_checked") > 4;
+    let end = run.end_time;
+    finish(&mut rep, ctx, &view, run.events, end);
+    rep
+}
+
+fn c17_hs(ctx: &CaseCtx) -> CaseReport {
+    use crate::fam::hsscript as hs;
+    let mut rep = CaseReport::new(ctx.family, ctx.index, ctx.case_seed);
+    let cfg = hs::generate(ctx.case_seed);
+    rep.desc = cfg.describe();
+    let snapshots = ctx.index % 2 == 0;
+    let run = hs::run_hs(ctx.case_seed, &cfg, snapshots);
+    if let Some(p) = &run.panicked {
+        rep.inconclusive.push(format!("panic during the run: {p}"));
+    }
+    let view = WireView::build(&run.events);
+    let real_addr = if cfg.ipv6 { crate::sim::v6(hs::REAL_PORT) } else { crate::sim::v4(hs::REAL_PORT) };
+    mon::c17::check(
+        &mut rep,
+        &run.events,
+        &view,
+        &mon::c17::Params {
+            real_is_initiator: cfg.real_initiates,
+            real_addr,
+            max_retransmissions: cfg.sock.max_retransmissions.unwrap_or(5),
+            silent_initiator: cfg.silent_initiator,
+        },
+    );
+    if snapshots {
+        mon::c17::coverage_labels(&mut rep, &run.events, &view, real_addr);
+    }
+    rep.counters.add("datagrams", view.pkts.len() as u64);
+    rep.nontrivial = view.pkts.len() > 3;
     let end = run.end_time;
     finish(&mut rep, ctx, &view, run.events, end);
     rep
